@@ -79,6 +79,8 @@ const c14MaxHangs = 3
 
 var c14ForcedHangs int // confirmed hangs of forced worlds in this process
 
+var c14UnlistedSeen = map[string]int{} // violations matching the pattern of a finding whose entry is not "finding" (any more)
+
 func c14SettleTimeout() time.Duration {
 	if c14ForcedHangs > 0 {
 		return 500 * time.Millisecond
@@ -489,6 +491,15 @@ func c14ReportV(r *Result, suite string, run *c14Run, verdicts []c14Verdict) {
 		if v.Finding != "" && listed(v.Finding) {
 			r.KnownFinding(v.Finding, v.What+": "+v.Detail)
 			continue
+		}
+		if v.Finding != "" {
+			// the pattern of a finding that is NOT listed (any more): an ordinary violation; one replay per pattern is enough
+			// (the check prints the first three violations — leave room for the other suites)
+			c14UnlistedSeen[v.Finding]++
+			r.H("c14.unlisted-pattern", v.Finding)
+			if c14UnlistedSeen[v.Finding] > 1 {
+				continue
+			}
 		}
 		r.Violate(Violation{Kind: "e2e", Suite: suite, Input: run, Observed: v.Detail, Expected: "C14: " + v.What + " oracle", Note: v.Finding})
 	}
